@@ -46,6 +46,7 @@ IMPURE_FUNCS = {"next", "print", "setattr", "exec", "eval", "input", "open", "de
 CONSUMERS = {"tuple", "list", "set", "frozenset", "sum", "any", "all", "sorted", "min", "max", "dict", "OrderedDict", "reduce"}
 NUMERIC_FUNCS = {"exp", "log", "log10", "log2", "sqrt", "float", "int", "sum", "len", "abs", "min", "max", "sin", "cos", "tanh", "atanh", "arctanh", "floor", "round", "Fraction"}
 MAX_EFFECTS = 6000
+MAX_WORK = 40000     # statements walked (continuations are walked once per path)
 
 
 class Unsupported(Exception):
@@ -76,13 +77,19 @@ class Normaliser:
         self.helpers = helpers or {}
         self.depth = depth
         self.n_eff = 0
-        self.decided: Dict[str, bool] = {}   # path condition: dump of a test -> its value on the current path
+        self.work = 0
+        self.sunk = False
+        self.decided: Dict[str, bool] = {}   # path condition: key of a test's positive core (tkey) -> its value on the current path
+        self._tkeys: Dict[str, tuple] = {}
+        self._inval: List[str] = []          # keys dropped from `decided` because something they mention changed
         self.vnum: Dict[str, tuple] = {}     # variables that stay variables are numbered in the order they are first bound
         fn = inline_procedures(fn, self.helpers, self.methods) if depth == 0 else fn
         fn = webs.split(fn)
         fn = prepass(fn)
         self.fn = fn
         self.scope = _scope_names(fn)
+        a_ = fn.args
+        self.params = {p.arg for p in a_.posonlyargs + a_.args + a_.kwonlyargs} | ({a_.vararg.arg} if a_.vararg else set()) | ({a_.kwarg.arg} if a_.kwarg else set())
         self.captured = set()   # names read inside nested defs/classes: always emitted as bindings
         self.mutated = set()    # local names whose object is mutated (stores into it, mutator method calls)
         for n in ast.walk(fn):
@@ -358,6 +365,11 @@ class Normaliser:
 
     def call(self, n, benv):
         f = n.func
+        if any(isinstance(a, ast.Starred) and isinstance(a.value, (ast.Tuple, ast.List)) for a in n.args):
+            flat = []
+            for a in n.args:   # f(*(a, b)) is f(a, b)
+                flat.extend(a.value.elts if isinstance(a, ast.Starred) and isinstance(a.value, (ast.Tuple, ast.List)) else [a])
+            n = ast.Call(func=n.func, args=flat, keywords=n.keywords)
         if isinstance(f, ast.Name) and f.id in self.helpers and f.id not in benv and self.depth < 3:
             r = self.inline(self.helpers[f.id], n, benv)
             if r is not None:
@@ -589,16 +601,16 @@ class Normaliser:
                 return r
         return None
 
-    @staticmethod
-    def tkey(test):
-        """(dump of the positive core of a test, is the test itself positive?)"""
-        pos = True
-        while isinstance(test, ast.UnaryOp) and isinstance(test.op, ast.Not):
-            test, pos = test.operand, not pos
-        if isinstance(test, ast.Compare) and len(test.ops) == 1 and isinstance(test.ops[0], (ast.NotEq, ast.IsNot, ast.NotIn)):
-            op = {ast.NotEq: ast.Eq, ast.IsNot: ast.Is, ast.NotIn: ast.In}[type(test.ops[0])]()
-            test, pos = ast.Compare(left=test.left, ops=[op], comparators=test.comparators), not pos
-        return ast.dump(test), pos
+    def tkey(self, test):
+        """(key of the positive core of a test, is the test itself positive?) -- by construction the polarity and the core are those of `self.test`,
+        so that `decided[key]` is the truth value of exactly the form that `mk_if` is given"""
+        d = ast.dump(test)
+        hit = self._tkeys.get(d)
+        if hit is None:
+            pos, t = self.test(test, {})
+            hit = (repr(t), pos)
+            self._tkeys[d] = hit
+        return hit
 
     def choose(self, node, key, take_body):
         """copy of the expression in which every IfExp on the test `key` (positive core) is replaced by the arm taken when the core is `take_body`"""
@@ -621,22 +633,81 @@ class Normaliser:
     def apply_decided(self, e):
         if e is None or not self.decided:
             return e
+        self.work += 5 * len(self.decided)
+        if self.work > MAX_WORK:
+            raise Unsupported("normal form too expensive")
         for key, val in self.decided.items():
             e = self.choose(e, key, val)
         return e
 
     def under(self, key, val, thunk):
-        """run thunk with the test `key` known to be `val`"""
-        had = key in self.decided
-        old = self.decided.get(key)
+        """run thunk with the test `key` known to be `val`; what the thunk's effects made uncertain stays uncertain afterwards"""
+        saved = dict(self.decided)
+        mark = len(self._inval)
         self.decided[key] = val
         try:
             return thunk()
         finally:
-            if had:
-                self.decided[key] = old
+            self.decided = saved
+            for k in self._inval[mark:]:
+                self.decided.pop(k, None)
+
+    def name_form(self, closed_name):
+        """form of a name as it occurs in closed expressions"""
+        return self.vform(closed_name[len(OP):]) if closed_name.startswith(OP) else ("n", closed_name)
+
+    def invalidate(self, closed_names):
+        """the named variables were rebound / the named objects were mutated: tests that mention them may evaluate differently from now on"""
+        if not self.decided or not closed_names:
+            return
+        reps = [repr(self.name_form(nm)) for nm in closed_names]
+        for k in list(self.decided):
+            if any(r in k for r in reps):
+                del self.decided[k]
+                self._inval.append(k)
+
+    def touched_by(self, stmts, env) -> set:
+        """closed names of everything the statements may rebind or mutate: stored local names (as variables), roots of stores / mutator calls"""
+        out = set()
+
+        def closed_root(r):
+            if r is None:
+                return
+            if r in env:
+                cr = self._root(env[r])
+                if cr is not None:
+                    out.add(cr)
             else:
-                del self.decided[key]
+                out.add(r)
+            out.add(OP + r)
+        for st in stmts:
+            for n in ast.walk(st):
+                if isinstance(n, ast.Name) and isinstance(n.ctx, (ast.Store, ast.Del)):
+                    out.add(OP + n.id)
+                elif isinstance(n, (ast.Subscript, ast.Attribute)) and isinstance(n.ctx, (ast.Store, ast.Del)):
+                    closed_root(self._root(n))
+                elif isinstance(n, ast.Expr) and isinstance(n.value, ast.Call):
+                    closed_root(self._root(n.value.func))
+                elif isinstance(n, ast.Call) and isinstance(n.func, ast.Attribute) and n.func.attr in MUTATORS:
+                    closed_root(self._root(n.func.value))
+                elif isinstance(n, ast.ExceptHandler) and n.name:
+                    out.add(OP + n.name)
+        return out
+
+    def before_nested(self, stmts, env, eff):
+        """a loop / try / with is about to run `stmts` an unknown number of times: whatever they may change is settled first"""
+        names = self.touched_by(stmts, env)
+        self.materialise(env, names, eff)
+        self.invalidate(names)
+
+    def to_variable(self, nm, env, eff):
+        """the local `nm` becomes a variable from here on; the value it has so far (an expression, or the parameter of that name) is bound first"""
+        cur = env.get(nm)
+        if cur is not None and not (isinstance(cur, ast.Name) and cur.id == OP + nm):
+            self.bind_var(nm, cur, env, eff)
+        elif cur is None and nm in self.params:
+            self.bind_var(nm, ast.Name(id=nm, ctx=ast.Load()), env, eff)
+        env[nm] = ast.Name(id=OP + nm, ctx=ast.Load())
 
     BOOLISH = ("cmp", "cmpchain", "not", "bool")
 
@@ -752,6 +823,7 @@ class Normaliser:
         """the local `nm` stays a variable: emit its (re)binding"""
         self.materialise(env, {OP + nm}, eff)
         eff.extend(self.emit("bind", [value], lambda fs: ("bind", self.vform(nm), fs[0])))
+        self.invalidate({OP + nm})
         env[nm] = ast.Name(id=OP + nm, ctx=ast.Load())
 
     def assign(self, target, value, env, eff, pure):
@@ -799,6 +871,8 @@ class Normaliser:
             if r is not None:
                 self.materialise(env, {r}, eff)
             eff.extend(self.emit("store", [t2, value], lambda fs: ("store", fs[0], fs[1])))
+            if r is not None:
+                self.invalidate({r})
             return
         raise Unsupported("assignment target %s" % type(target).__name__)
 
@@ -901,6 +975,9 @@ class Normaliser:
                 return eff, env
             s = stmts[i]
             rest = stmts[i + 1:]
+            self.work += 1
+            if self.work > MAX_WORK:
+                raise Unsupported("normal form too expensive")
             i += 1
             if isinstance(s, ast.Pass) or (isinstance(s, ast.Expr) and isinstance(s.value, ast.Constant)):
                 continue
@@ -928,6 +1005,8 @@ class Normaliser:
                         self.materialise(env, {r}, eff)
                     val = ast.BinOp(left=t2, op=s.op, right=self.subst(s.value, env))
                     eff.extend(self.emit("store", [t2, val], lambda fs: ("store", fs[0], fs[1])))
+                    if r is not None:
+                        self.invalidate({r})
                 continue
             if isinstance(s, ast.Expr):
                 v = s.value
@@ -936,11 +1015,12 @@ class Normaliser:
                     eff.extend(self.emit(k, [self.subst(v.value, env)], lambda fs, k=k: (k, fs[0])))
                 else:
                     v2 = self.subst(v, env)
-                    if isinstance(v2, ast.Call):
-                        r = self._root(v2.func)
-                        if r is not None:
-                            self.materialise(env, {r}, eff)
+                    r = self._root(v2.func) if isinstance(v2, ast.Call) else None
+                    if r is not None:
+                        self.materialise(env, {r}, eff)
                     eff.extend(self.emit("do", [v2], lambda fs: ("do", fs[0])))
+                    if r is not None:
+                        self.invalidate({r})
                 continue
             if isinstance(s, ast.Return):
                 eff.extend(self.emit("return", [self.subst(s.value, env)], lambda fs: ("return", fs[0])))
@@ -967,6 +1047,7 @@ class Normaliser:
                 e_if, env, done = self.do_if(test, s.body, s.orelse, rest, env, cont)
                 eff.extend(e_if)
                 if done:
+                    self.sunk = True   # everything after the if was continued inside its arms: the environment returned here is not "the state afterwards"
                     return eff, env
                 continue
             if isinstance(s, (ast.For, ast.While)):
@@ -991,12 +1072,12 @@ class Normaliser:
                     names_here = {x.id for st_ in part for x in ast.walk(st_) if isinstance(x, ast.Name)}
                     outside = {x.id for x in ast.walk(self.fn) if isinstance(x, ast.Name) and id(x) not in inside}
                     local_to_part |= (names_here - outside)
+                self.before_nested(s.body + s.orelse + s.finalbody + [x for h in s.handlers for x in h.body], env, eff)
                 for nm in self.stores_in(s.body + s.orelse + s.finalbody + [x for h in s.handlers for x in h.body]):
-                    if nm in local_to_part and nm not in self.captured and nm not in self.mutated and nm not in env:
+                    if nm in local_to_part and nm not in self.captured and nm not in self.mutated and nm not in env and nm not in self.params:
                         continue   # bound and read inside one part of the try only: an ordinary temporary of that part
-                    if nm in env and not (isinstance(env[nm], ast.Name) and env[nm].id == OP + nm):
-                        self.bind_var(nm, env[nm], env, eff)
-                    env[nm] = ast.Name(id=OP + nm, ctx=ast.Load())
+                    self.to_variable(nm, env, eff)
+                prev_sunk = self.sunk
                 eb, _ = self.block(s.body, dict(env), ())
                 hs = []
                 for h in s.handlers:
@@ -1008,6 +1089,7 @@ class Normaliser:
                 eo, _ = self.block(s.orelse, dict(env), ()) if s.orelse else ([], env)
                 ef, _ = self.block(s.finalbody, dict(env), ()) if s.finalbody else ([], env)
                 eff.append(("try", tuple(eb), tuple(hs), tuple(eo), tuple(ef)))
+                self.sunk = prev_sunk
                 continue
             if isinstance(s, ast.With):
                 items = []
@@ -1021,11 +1103,12 @@ class Normaliser:
                         items.append((cf, self.vform(nm)))
                     else:
                         items.append((cf, None))
+                self.before_nested(s.body, env, eff)
                 for nm in self.stores_in(s.body):
-                    if nm in env and not (isinstance(env[nm], ast.Name) and env[nm].id == OP + nm):
-                        self.bind_var(nm, env[nm], env, eff)
-                    env[nm] = ast.Name(id=OP + nm, ctx=ast.Load())
+                    self.to_variable(nm, env, eff)
+                prev_sunk = self.sunk
                 eb, _ = self.block(s.body, dict(env), ())
+                self.sunk = prev_sunk
                 eff.append(("with", tuple(items), tuple(eb)))
                 continue
             if isinstance(s, ast.FunctionDef) and self.helpers.get(s.name) is not None and self._same_def(self.helpers[s.name], s):
@@ -1092,15 +1175,30 @@ class Normaliser:
             ea, _ = self.under(tkey, True, lambda: self.block(a_st, dict(env), (rest,) + tuple(cont)))
             eb, _ = self.under(tkey, False, lambda: self.block(b_st, dict(env), (rest,) + tuple(cont)))
             return self.mk_if(t, ea, eb), env, True
+        self.sunk = False
         ea, enva = self.under(tkey, True, lambda: self.block(a_st, dict(env), ()))
+        sunk_a, self.sunk = self.sunk, False
         eb, envb = self.under(tkey, False, lambda: self.block(b_st, dict(env), ()))
-        out = []
-        if ea == eb and enva.keys() == envb.keys() and all(ast.dump(enva[k]) == ast.dump(envb[k]) for k in enva):
+        sunk_b, self.sunk = self.sunk, False
+        if sunk_a or sunk_b:
+            # an if nested in an arm continued what follows it inside its own arms: so must this one
+            ea, _ = self.under(tkey, True, lambda: self.block(a_st, dict(env), (rest,) + tuple(cont)))
+            eb, _ = self.under(tkey, False, lambda: self.block(b_st, dict(env), (rest,) + tuple(cont)))
+            return self.mk_if(t, ea, eb), env, True
+        same_env = enva.keys() == envb.keys() and all(enva[k] is envb[k] or ast.dump(enva[k]) == ast.dump(envb[k]) for k in enva)
+        if ea == eb and same_env:
             return ea, enva, False
-        if ea or eb:
-            out.extend(self.mk_if(t, ea, eb))
-        tpos = test if pos else ast.UnaryOp(op=ast.Not(), operand=test)
-        return out, self.merge_envs(tpos, enva, envb), False
+        if same_env:
+            return self.mk_if(t, ea, eb), enva, False
+        if not ea and not eb:
+            # nothing happened in the arms: the test still has the value it had, a name bound differently becomes a conditional expression
+            tpos = test if pos else ast.UnaryOp(op=ast.Not(), operand=test)
+            return [], self.merge_envs(tpos, enva, envb), False
+        # effects in an arm and different bindings afterwards: re-evaluating the test later could give another answer, so what follows
+        # is continued inside both arms (mk_if moves a common tail back out)
+        ea, _ = self.under(tkey, True, lambda: self.block(a_st, dict(env), (rest,) + tuple(cont)))
+        eb, _ = self.under(tkey, False, lambda: self.block(b_st, dict(env), (rest,) + tuple(cont)))
+        return self.mk_if(t, ea, eb), env, True
 
     @staticmethod
     def merge_envs(tpos, enva, envb):
@@ -1116,16 +1214,25 @@ class Normaliser:
         return merged
 
     def do_loop(self, s, env):
+        prev_sunk = self.sunk
+        try:
+            return self._do_loop(s, env)
+        finally:
+            self.sunk = prev_sunk   # ifs inside the loop body continue the *body* inside their arms: no concern of the statements around the loop
+
+    def _do_loop(self, s, env):
         eff = []
         temps = self.iteration_temps(s)
         assigned = [n for n in self.stores_in(s.body + s.orelse)]
         tnames = _bound_names(s.target) if isinstance(s, ast.For) else set()
         carried = [nm for nm in assigned if nm not in tnames and nm not in temps]
+        # what the loop may change is settled before it starts: values computed so far from objects it mutates, tests decided about them
+        self.before_nested([x_ for x_ in s.body + s.orelse] + ([ast.Assign(targets=[s.target], value=ast.Constant(value=None))] if isinstance(s, ast.For) else []), env, eff)
         # the values the loop starts from are bound first, in an order that does not depend on names or on the layout of the loop body
-        start = [nm for nm in carried if nm in env and not (isinstance(env[nm], ast.Name) and env[nm].id == OP + nm)]
-        start.sort(key=lambda nm: ast.dump(env[nm]))
+        start = [nm for nm in carried if (nm in env and not (isinstance(env[nm], ast.Name) and env[nm].id == OP + nm)) or (nm not in env and nm in self.params)]
+        start.sort(key=lambda nm: ast.dump(env[nm]) if nm in env else "~" + nm)
         for nm in start:
-            self.bind_var(nm, env[nm], env, eff)
+            self.to_variable(nm, env, eff)
         for nm in carried:
             env[nm] = ast.Name(id=OP + nm, ctx=ast.Load())
         e2 = dict(env)
@@ -1159,50 +1266,14 @@ class Normaliser:
             return ("T", tuple(self.loop_target(e) for e in t.elts))
         raise Unsupported("loop target")
 
-    # ---------------------------------------------------------------------------------------------- loop -> comprehension
-    def comprehension_of_loop(self, s, rest):
-        """`x = []` followed by `for t in it: [if c:] x.append(e)`  ->  x = [e for t in it if c]   (likewise x = {} ... x[k] = v)"""
-        if len(s.targets) != 1 or not isinstance(s.targets[0], ast.Name) or not rest:
-            return None
-        nm = s.targets[0].id
-        v = s.value
-        is_list = (isinstance(v, ast.List) and not v.elts) or (isinstance(v, ast.Call) and isinstance(v.func, ast.Name) and v.func.id == "list" and not v.args)
-        is_dict = (isinstance(v, ast.Dict) and not v.keys) or (isinstance(v, ast.Call) and isinstance(v.func, ast.Name) and v.func.id == "dict" and not v.args and not v.keywords)
-        if not (is_list or is_dict):
-            return None
-        lp = rest[0]
-        if not isinstance(lp, ast.For) or lp.orelse:
-            return None
-        body = lp.body
-        conds = []
-        while len(body) == 1 and isinstance(body[0], ast.If) and not body[0].orelse:
-            conds.append(body[0].test)
-            body = body[0].body
-        if len(body) != 1:
-            return None
-        b = body[0]
 
-        def uses_nm(node):
-            return any(isinstance(x, ast.Name) and x.id == nm for x in ast.walk(node))
-        if any(uses_nm(c) for c in conds) or uses_nm(lp.iter):
-            return None
-        gen = ast.comprehension(target=lp.target, iter=lp.iter, ifs=conds, is_async=0)
-        if is_list and isinstance(b, ast.Expr) and isinstance(b.value, ast.Call) and isinstance(b.value.func, ast.Attribute) and b.value.func.attr == "append" \
-                and isinstance(b.value.func.value, ast.Name) and b.value.func.value.id == nm and len(b.value.args) == 1 and not uses_nm(b.value.args[0]):
-            return ast.Assign(targets=s.targets, value=ast.ListComp(elt=b.value.args[0], generators=[gen])), 1
-        if is_dict and isinstance(b, ast.Assign) and len(b.targets) == 1 and isinstance(b.targets[0], ast.Subscript) and isinstance(b.targets[0].value, ast.Name) \
-                and b.targets[0].value.id == nm and not uses_nm(b.value) and not uses_nm(b.targets[0].slice):
-            return ast.Assign(targets=s.targets, value=ast.DictComp(key=b.targets[0].slice, value=b.value, generators=[gen])), 1
-        return None
-
-
-# ================================================================================================ pre-pass (AST -> AST)
 class _Prepass(ast.NodeTransformer):
     """loops that only build a list / dict, append every item, or look for a witness are rewritten into the equivalent expression form"""
 
-    def __init__(self, nonneg=frozenset(), leaking=frozenset()):
+    def __init__(self, nonneg=frozenset(), leaking=frozenset(), read_outside=None):
         self.nonneg = nonneg   # names that evidently hold a non-negative int (index of an enumerate loop that is never rebound)
         self.leaking = leaking  # loop variables that are read outside the body of a loop that binds them
+        self.read_outside = read_outside or {}   # id(for loop) -> names read somewhere outside that loop
 
     def _stmts(self, body):
         out = []
@@ -1234,7 +1305,7 @@ class _Prepass(ast.NodeTransformer):
             nxt = body[i + 1] if i + 1 < len(body) else None
             # x = [] ; for t in it: [if c:] x.append(e)      ->  x = [e for t in it if c]
             if isinstance(s, ast.Assign) and isinstance(nxt, ast.For):
-                c = _loop_as_comprehension(s, nxt)
+                c = _loop_as_comprehension(s, nxt, self.read_outside.get(id(nxt)))
                 if c is not None:
                     out.append(c)
                     i += 2
@@ -1315,8 +1386,9 @@ class _Sub(ast.NodeTransformer):
         return node
 
 
-def _inline_leading_temps(body):
-    """`t = e ; <last statement using t>`  ->  the last statement with e in place of t (only plain single-name temporaries)"""
+def _inline_leading_temps(body, keep=None):
+    """`t = e ; <last statement using t>`  ->  the last statement with e in place of t (only plain single-name temporaries that nothing outside
+    the loop reads; `keep`: names read outside, None when unknown)"""
     import copy
     body = list(body)
     while len(body) > 1:
@@ -1324,6 +1396,8 @@ def _inline_leading_temps(body):
         if not (isinstance(st, ast.Assign) and len(st.targets) == 1 and isinstance(st.targets[0], ast.Name)):
             return None
         nm = st.targets[0].id
+        if keep is None or nm in keep:
+            return None
         if _uses(st.value, nm) or any(isinstance(x, ast.Name) and x.id == nm and isinstance(x.ctx, ast.Store) for s2 in body[1:] for x in ast.walk(s2)):
             return None
         if any(isinstance(x, (ast.Lambda, ast.ListComp, ast.GeneratorExp, ast.SetComp, ast.DictComp)) for s2 in body[1:] for x in ast.walk(s2)):
@@ -1332,7 +1406,7 @@ def _inline_leading_temps(body):
     return body
 
 
-def _loop_as_comprehension(s, lp):
+def _loop_as_comprehension(s, lp, read_outside=None):
     if len(s.targets) != 1 or not isinstance(s.targets[0], ast.Name) or lp.orelse:
         return None
     nm = s.targets[0].id
@@ -1345,7 +1419,7 @@ def _loop_as_comprehension(s, lp):
     while len(body) == 1 and isinstance(body[0], ast.If) and not body[0].orelse:
         conds.append(body[0].test)
         body = body[0].body
-    body = _inline_leading_temps(body)
+    body = _inline_leading_temps(body, read_outside)
     if body is None or len(body) != 1 or any(_uses(c, nm) for c in conds) or _uses(lp.iter, nm):
         return None
     b = body[0]
@@ -1912,10 +1986,27 @@ def _leaking_loop_names(fn) -> frozenset:
     return frozenset(leaking)
 
 
+def _reads_outside_loops(fn) -> dict:
+    """id(for loop) -> names with a read (Load) somewhere in fn outside that loop"""
+    total = {}
+    for n in ast.walk(fn):
+        if isinstance(n, ast.Name) and isinstance(n.ctx, ast.Load):
+            total[n.id] = total.get(n.id, 0) + 1
+    out = {}
+    for lp in ast.walk(fn):
+        if isinstance(lp, ast.For):
+            inside = {}
+            for n in ast.walk(lp):
+                if isinstance(n, ast.Name) and isinstance(n.ctx, ast.Load):
+                    inside[n.id] = inside.get(n.id, 0) + 1
+            out[id(lp)] = {nm for nm, k in total.items() if k > inside.get(nm, 0)}
+    return out
+
+
 def prepass(fn):
     import copy
     fn2 = copy.deepcopy(fn)
-    _Prepass(_enumerate_indices(fn2), _leaking_loop_names(fn2)).generic_visit(fn2)
+    _Prepass(_enumerate_indices(fn2), _leaking_loop_names(fn2), _reads_outside_loops(fn2)).generic_visit(fn2)
     return fn2
 
 
@@ -2002,7 +2093,66 @@ def normal_form(fn, consts=None, helpers=None, methods=None):
            defaults, tuple(nz.exo(d, {}) for d in fn.decorator_list))
     eff, _ = nz.block(_body(fn), {}, ())
     is_gen = any(isinstance(x, (ast.Yield, ast.YieldFrom)) for x in ast.walk(fn))
-    return (sig, _renumber(tuple(strip_tail(eff, "return")) if not is_gen else tuple(eff)))
+    return (sig, _renumber(_drop_dead_binds(tuple(strip_tail(eff, "return")) if not is_gen else tuple(eff))))
+
+
+def _form_pure(x) -> bool:
+    if isinstance(x, tuple):
+        if len(x) >= 2 and x[0] == "call":
+            f = x[1]
+            if isinstance(f, tuple) and len(f) == 3 and f[0] == "." and f[2] in MUTATORS:
+                return False
+            if isinstance(f, tuple) and len(f) == 2 and f[0] == "n" and f[1] in IMPURE_FUNCS:
+                return False
+        if x and x[0] in ("yield", "yieldfrom", "await"):
+            return False
+        return all(_form_pure(y) for y in x)
+    return True
+
+
+def _drop_dead_binds(effs):
+    """a numbered variable that is bound to side-effect free values only and never read is not there (the binding was materialised because something its
+    value mentions was about to change, but nothing looked at it afterwards)"""
+    for _ in range(10):
+        reads, impure = {}, set()
+
+        def scan(x, binding=None):
+            if isinstance(x, tuple):
+                if len(x) == 3 and x[0] == "bind" and isinstance(x[1], tuple) and len(x[1]) == 2 and x[1][0] == "v" and isinstance(x[1][1], int):
+                    if not _form_pure(x[2]):
+                        impure.add(x[1][1])
+                    scan(x[2])
+                    return
+                if len(x) == 2 and x[0] == "v" and isinstance(x[1], int):
+                    reads[x[1]] = reads.get(x[1], 0) + 1
+                    return
+                for y in x:
+                    scan(y)
+        scan(effs)
+        bound = set()
+
+        def binds(x):
+            if isinstance(x, tuple):
+                if len(x) == 3 and x[0] == "bind" and isinstance(x[1], tuple) and len(x[1]) == 2 and x[1][0] == "v" and isinstance(x[1][1], int):
+                    bound.add(x[1][1])
+                for y in x:
+                    binds(y)
+        binds(effs)
+        dead = {v for v in bound if v not in reads and v not in impure}
+        if not dead:
+            return effs
+
+        def strip(x):
+            if isinstance(x, tuple):
+                if x and all(isinstance(y, tuple) for y in x) and any(len(y) == 3 and y[0] == "bind" for y in x if y):
+                    x = tuple(y for y in x if not (len(y) == 3 and y[0] == "bind" and isinstance(y[1], tuple) and y[1][0] == "v" and y[1][1] in dead))
+                out = tuple(strip(y) for y in x)
+                if out and all(isinstance(y, tuple) for y in out):
+                    out = tuple(y for y in out if not (len(y) == 4 and y[0] == "if" and y[2] == () and y[3] == ()))
+                return out
+            return x
+        effs = strip(effs)
+    return effs
 
 
 def _renumber(form):
